@@ -29,6 +29,9 @@ type Frame struct {
 	phiEdges map[*ssa.BasicBlock][]inEdge
 	retCount int
 	bindings []*Val
+	allocSeq map[*ssa.Alloc]int
+	curBlock *ssa.BasicBlock
+	seqCtr   int
 	callCount map[string]int
 }
 
@@ -51,11 +54,12 @@ type loopInfo struct {
 	spec    *LoopSpec
 	decr    Term
 	hasDecr bool
+	pre     *State
 }
 
 func (ex *Exec) newFrame(fn *ssa.Function, args []*Val, depth int) *Frame {
 	fr := &Frame{fn: fn, key: FuncKey(fn), vals: map[ssa.Value]*Val{}, allocs: map[*ssa.Alloc]*Obj{}, byName: map[string][]*ssa.Alloc{}, args: args, depth: depth,
-		phiEdges: map[*ssa.BasicBlock][]inEdge{}, callCount: map[string]int{}}
+		phiEdges: map[*ssa.BasicBlock][]inEdge{}, callCount: map[string]int{}, allocSeq: map[*ssa.Alloc]int{}}
 	fr.contract = ex.p.contractFor(fr.key)
 	for i, p := range fn.Params {
 		if i < len(args) {
@@ -273,6 +277,7 @@ func (ex *Exec) runBlocks(fr *Frame, order []*ssa.BasicBlock, edges map[*ssa.Bas
 			continue
 		}
 		if l := fr.loops[b]; l != nil && l != dry {
+			fr.curBlock = b
 			st = ex.enterLoop(fr, l, st)
 		}
 		ex.execBlock(fr, b, st, edges, dry)
@@ -297,10 +302,13 @@ func (ex *Exec) enterLoop(fr *Frame, l *loopInfo, st *State) *State {
 			break
 		}
 	}
+	l.pre = st
 	// 1. invariants on entry
 	if l.spec != nil {
 		for i, c := range l.spec.Invariants {
-			cj := ex.rootCtx(fr, st, ex.oldFor(fr), nil).conjuncts(c.Expr)
+			gc := ex.goalCtx(fr, st, ex.oldFor(fr), nil)
+			gc.loopPre = l.pre
+			cj := gc.conjuncts(c.Expr)
 			for j, x := range cj {
 				nm := fmt.Sprintf("inv-entry(%d)[%s]", l.ordinal, clauseLabel(c, i))
 				if len(cj) > 1 {
@@ -316,7 +324,7 @@ func (ex *Exec) enterLoop(fr *Frame, l *loopInfo, st *State) *State {
 	for iter := 0; iter < 8; iter++ {
 		s2 := st.Clone()
 		ex.havocWritten(s2, st, written, fmt.Sprintf("L%d", l.ordinal))
-		coll := &collector{written: map[string]*writeRec{}}
+		coll := &collector{written: map[string]*writeRec{}, firstID: ex.objCtr + 1}
 		ex.colls = append(ex.colls, coll)
 		ex.quiet++
 		sl, ol := len(ex.script), len(ex.obls)
@@ -327,7 +335,9 @@ func (ex *Exec) enterLoop(fr *Frame, l *loopInfo, st *State) *State {
 		}
 		if l.spec != nil {
 			for _, c := range l.spec.Invariants {
-				ex.assume(s2.pc, ex.evalBool(fr, c.Expr, s2, ex.oldFor(fr), nil))
+				ac := ex.rootCtx(fr, s2, ex.oldFor(fr), nil)
+				ac.loopPre = l.pre
+				ex.assume(s2.pc, ac.bool(c.Expr))
 			}
 		}
 		edges := map[*ssa.BasicBlock][]inEdge{l.header: {{st: s2}}}
@@ -362,6 +372,9 @@ func (ex *Exec) enterLoop(fr *Frame, l *loopInfo, st *State) *State {
 	// propagate to enclosing collectors
 	for _, c := range ex.colls {
 		for k, r := range written {
+			if m, ok := ex.cellMeta[k]; ok && m.obj.ID >= c.firstID {
+				continue
+			}
 			if c.written[k] == nil {
 				c.written[k] = r
 			}
@@ -373,7 +386,9 @@ func (ex *Exec) enterLoop(fr *Frame, l *loopInfo, st *State) *State {
 	ex.havocWritten(st, pre, written, fmt.Sprintf("L%d", l.ordinal))
 	if l.spec != nil {
 		for _, c := range l.spec.Invariants {
-			ex.assume(st.pc, ex.evalBool(fr, c.Expr, st, ex.oldFor(fr), nil))
+			ac := ex.rootCtx(fr, st, ex.oldFor(fr), nil)
+			ac.loopPre = l.pre
+			ex.assume(st.pc, ac.bool(c.Expr))
 		}
 		if l.spec.Decreases != nil {
 			v := ex.evalSpec(fr, l.spec.Decreases, st, ex.oldFor(fr), nil)
@@ -504,6 +519,7 @@ func clauseLabel(c *Clause, i int) string {
 func (ex *Exec) oldFor(fr *Frame) *State { return ex.oldState }
 
 func (ex *Exec) execBlock(fr *Frame, b *ssa.BasicBlock, st *State, edges map[*ssa.BasicBlock][]inEdge, dry *loopInfo) {
+	fr.curBlock = b
 	for _, in := range b.Instrs {
 		if st.pc.IsFalse() {
 			return
@@ -581,7 +597,9 @@ func (ex *Exec) succ(fr *Frame, from, to *ssa.BasicBlock, st *State, cond Term, 
 			}
 			if l.spec != nil {
 				for i, c := range l.spec.Invariants {
-					cj := ex.rootCtx(fr, ns, ex.oldFor(fr), nil).conjuncts(c.Expr)
+					gc := ex.goalCtx(fr, ns, ex.oldFor(fr), nil)
+					gc.loopPre = l.pre
+					cj := gc.conjuncts(c.Expr)
 					for j, x := range cj {
 						nm := fmt.Sprintf("inv-keep(%d)[%s]", l.ordinal, clauseLabel(c, i))
 						if len(cj) > 1 {
